@@ -44,6 +44,7 @@ std::vector<void*> g_refs;		 // NiRef objects seen in Sync
 std::vector<void*> g_srefs;		 // NiStringRef objects seen in Sync
 long g_maxCount = 3;
 bool g_monotoneBytes = false, g_sawZeroByte = false;
+bool g_descShaped = true;		 // 64-bit integers get vertex-descriptor-shaped values (block-level runs only)
 
 void onTransfer(int mode, char* ptr, std::streamsize count) {
 	g_trace.push_back(static_cast<long>(count));
@@ -75,6 +76,21 @@ void onTyped(int mode, void* ptr, size_t size, int kind) {
 		if (g_nextIsRef && size == 4) {
 			v = (r < 5) ? 0xFFFFFFFFULL : g_gen.below(4);
 			g_nextIsRef = false;
+		}
+		else if (size == 8 && r < 10 && g_descShaped) {
+			// 64-bit integers are never counts in this library; the one that drives parsing is the
+			// BSTriShape / NiSkinPartition vertex descriptor: size nibbles, offsets, 12 flag bits at 44.
+			// Generate descriptor-shaped values so that the flag- and size-dependent branches are reached.
+			static const uint64_t mainSizes[] = {0, 1, 2, 3, 4, 4, 5, 6, 7, 8};
+			v = static_cast<uint64_t>(g_gen.below(16));				  // vertex size nibble
+			v |= static_cast<uint64_t>(g_gen.below(16)) << 4;			  // dynamic/uv nibble
+			v |= mainSizes[g_gen.below(10)] << 8;						  // main size (x4 bytes)
+			v |= static_cast<uint64_t>(g_gen.below(1u << 16)) << 16;	  // further offsets
+			v |= static_cast<uint64_t>(g_gen.below(1u << 12)) << 32;
+			uint64_t flags = g_gen.below(1u << 11);
+			if (g_gen.below(4) != 0)
+				flags |= 1;												  // positions are almost always present
+			v |= flags << 44;
 		}
 		else if (r < 11)
 			v = g_gen.below(static_cast<uint32_t>(g_maxCount) + 1);
@@ -290,6 +306,10 @@ std::string do_blk(const Case& c) {
 		os << " b2=" << hex(p2.bytes);
 	if (p1b.bytes != p1.bytes)
 		os << " b1b=" << hex(p1b.bytes);
+	// facts the known-finding matchers need (public members only)
+	if (auto bs = dynamic_cast<BSTriShape*>(obj.get()))
+		os << " bs_skinned=" << bs->IsSkinned() << " bs_pds=" << bs->particleDataSize << " bs_nv=" << bs->GetNumVertices()
+		   << " bs_nt=" << bs->GetNumTriangles();
 	return os.str();
 }
 
@@ -532,9 +552,13 @@ std::string do_fileblk(const Case& c) {
 	g_nextIsRef = false;
 	g_monotoneBytes = c.get("type") == "BSGeometry";
 	g_sawZeroByte = false;
+	// file level: the instance must be one the library's own normal form keeps (CalcDataSizes rewrites an
+	// inconsistent vertex descriptor on every save), so descriptors stay small here
+	g_descShaped = false;
 	g_generate = true;
 	objS->Get(gin);
 	g_generate = false;
+	g_descShaped = true;
 	hdr.AddBlock(std::move(objS));
 	NifSaveOptions raw;
 	raw.optimize = false;
@@ -562,6 +586,11 @@ std::string do_fileblk(const Case& c) {
 		if (l2 == 0)
 			re2.Save(s3, raw);
 		os << " load2=" << l2 << " fixed=" << (s3.str() == b2);
+		if (!c.get("dump").empty()) {
+			std::ofstream(c.get("dump") + "/b1.nif", std::ios::binary) << b1;
+			std::ofstream(c.get("dump") + "/b2.nif", std::ios::binary) << b2;
+			std::ofstream(c.get("dump") + "/b3.nif", std::ios::binary) << s3.str();
+		}
 	}
 	return os.str();
 }
